@@ -218,6 +218,23 @@ def gen_cases(ck):
                     cases.append(('enum-inherited-ign', '%s/%s/ign %s | %s' % (mode, out, prog, sch)))
                     cnt += 1
                 enum_desc.append('%s/%s/%s/ign/k=%d/%s:%d' % (prog.replace(' ', ''), mode, out, k, kinds.__name__, cnt))
+    # re-entrance: a second signal raised from inside the first one's handler, at the places reachable without call-outs
+    # in HandleSigInt (inside write(2), inside the callback, inside the re-arming signal()); alone and after one earlier signal
+    for prog in (FAMILY[0], FAMILY[1]):
+        n = nsteps(prog)
+        cnt = 0
+        for mode in ('bsd', 'sysv'):
+            for gap in range(n + 1):
+                for g in 'IT':
+                    for g2 in 'IT':
+                        for pl in 'wcr':
+                            cases.append(('enum-nested', '%s %s | %d:%s+%s@%s' % (mode, prog, gap, g, g2, pl)))
+                            cnt += 1
+                            if mode == 'bsd' or thorough:
+                                for g0 in (range(gap + 1) if thorough else range(max(0, gap - 2), gap + 1)):
+                                    cases.append(('enum-nested', '%s %s | %d:I %d:%s+%s@%s' % (mode, prog, g0, gap, g, g2, pl)))
+                                    cnt += 1
+        enum_desc.append('%s/nested/%d' % (prog.replace(' ', ''), cnt))
     # the registration sequence real drivers perform: mp::BackendApp (InitHandlers / destructor) around a StdBackend
     # (RunFromNLFile: ReadNL, SetupTimerAndInterrupter -> SetupInterrupter -> SetInterrupter(interrupter()), Solve, Report)
     for var in ('APP', 'APPA', 'APPE', 'APPX', 'APPU'):
@@ -335,6 +352,9 @@ def oracle(case, impl):
         if hd.startswith('!'):
             g = hd[1]
             a = t['args'] or {}
+            # "<g>+<g2><place>": g2 was raised from inside the handler of g (re-entrance; places outside the two count windows)
+            nested = hd[3] if len(hd) >= 5 and hd[2] == '+' else None
+            nested_ran = nested is not None and a.get('brk') == str(2 * MSGLEN)
             # where are we?
             cur = expected[pos] if pos < len(expected) else None
             in_reg = cur is not None and cur[1].startswith('R') and cur[2] >= 1     # between the first and the last store
@@ -348,13 +368,19 @@ def oracle(case, impl):
             installed_strict = installed_obj[g] or (stop0_done and st[g] == '1')
             if 'killed' in a:
                 terminated = True
-                if ever_installed[g]:
-                    bad.append(('killed-after-install', 'signal %s handled by the default action although the handler had been installed' % g))
+                kg = a['killed'] if a['killed'] in ('I', 'T') else g      # which signal met the default action
+                if nested == g and kg == g and mode.startswith('sysv') and ever_installed[g]:
+                    pass      # SysV signal(): the same signal inside its own handler meets the default action (platform semantics)
+                elif ever_installed[kg]:
+                    bad.append(('killed-after-install', 'signal %s handled by the default action although the handler had been installed' % kg))
                 elif obj_phase in ('body', 'dtor'):
                     bad.append(('killed-while-installed', 'signal %s handled by the default action although a handler object is fully constructed' % g))
                 break
             brk = a.get('brk', '')
-            if brk_observable:
+            if brk_observable and nested is not None:
+                if brk not in ('0', str(MSGLEN), str(2 * MSGLEN)):
+                    bad.append(('break-text-garbled', 'break text output %r' % brk))
+            elif brk_observable:
                 if brk not in ('0', str(MSGLEN)):
                     bad.append(('break-text-garbled', 'break text output %r' % brk))
                 if obj_phase == 'body' and brk != str(MSGLEN):
@@ -365,6 +391,8 @@ def oracle(case, impl):
             rec = {'g': g, 'pos': pos, 'ctor_window': obj_phase == 'ctor' and not stop0_done, 'stop1_mark': stop1_seen_since}
             if installed_strict:
                 counted.append(rec)
+                if nested_ran and (installed_obj[nested] or (stop0_done and st[nested] == '1')):
+                    counted.append(dict(rec, g=nested))
             if 'exit' in a:
                 terminated = True
                 if a['exit'] != '1':
@@ -387,7 +415,7 @@ def oracle(case, impl):
                             (len(counted), [c['pos'] for c in counted])))
             # callback
             cbs = [] if a.get('cb', '-') == '-' else [tuple(int(x) for x in c.split(':')) for c in a['cb'].split('+')]
-            if len(cbs) > 1:
+            if len(cbs) > (2 if nested_ran else 1):
                 bad.append(('callback-twice', 'callbacks %s for one signal' % cbs))
             if obj_phase == 'body' or (obj_phase == 'dtor' and not dtor_handler_cleared):
                 allowed = set()
@@ -787,7 +815,7 @@ def coverage_report(res, label):
     return '\n'.join(out), mt
 
 
-N_THEOREMS = 36
+N_THEOREMS = 43
 CURRENT_LAYOUT = 'fixed'     # = Layout.current in lean/MpVerif/C15/Model.lean (the order the main theorems are stated for)
 
 
@@ -851,7 +879,7 @@ def run(ck):
     cases, enum_desc = gen_cases(ck)
     lines = [l for _, l in cases]
     ck.log('%d cases (%s)' % (len(lines), ', '.join('%s=%d' % (o, sum(1 for x, _ in cases if x == o))
-                                                        for o in ['corpus', 'counterexample', 'enum', 'enum-stdout', 'enum-inherited-ign', 'enum-backendapp', 'enum-extra', 'random', 'malformed'])))
+                                                        for o in ['corpus', 'counterexample', 'enum', 'enum-stdout', 'enum-inherited-ign', 'enum-nested', 'enum-backendapp', 'enum-extra', 'random', 'malformed'])))
     if os.environ.get('VERIF_COVERAGE'):
         sel = os.environ.get('VERIF_COVERAGE')
         old_origins = ('corpus', 'counterexample', 'enum', 'enum-extra', 'random', 'malformed')
@@ -1074,7 +1102,7 @@ def run(ck):
                                  {'theorem': fdecl, 'module': 'MpVerif.C15.Props',
                                   'searched': '%d schedules on the real code, none violates the property' % len(lines)}, found_input=False)
     ck.assumptions += [
-        'signals are delivered on the interrupted thread and HandleSigInt is not re-entered while it runs (nested delivery is not modelled)',
+        'signals are delivered on the interrupted thread; ONE nested delivery inside HandleSigInt is modelled (Reentrant.lean: local theorems, counterexamples for the two count windows) and exercised on the real code at the places reachable without call-outs (inside write, the callback, the re-arm); the whole-history theorems are stated without re-entrance; deeper nesting is not modelled',
         'a store to std::atomic<T> / volatile sig_atomic_t is one indivisible program step; delivery inside a store or inside write(2) is not modelled',
         'write(2) to fd 1 either succeeds completely or fails (both modelled and exercised: fd 1 = memfd, pipe, /dev/null, closed, /dev/full, read-only); partial writes are not modelled; the callback itself returns (its return value is ignored by HandleSigInt)',
         'signal(2) semantics: both the glibc/BSD one and the SysV reset-on-entry one are modelled and exercised (through an interposed ::signal in the harness)',
